@@ -12,6 +12,7 @@ import (
 	"time"
 
 	. "vh/lib"
+	"vh/transports"
 
 	"github.com/cnotch/ipchub/av/codec"
 	"github.com/cnotch/ipchub/av/format/mpegts"
@@ -230,6 +231,7 @@ func init() {
 		}
 	}
 	commands["iso"] = isoRun
+	commands["C07_transports"] = transports.RunC07 // real viewers of every transport (harness/transports, shared with C01 / C03)
 	commands["flvconv"] = flvConv
 	commands["tsconv"] = tsConv
 	// TS AAC packetizer with an arbitrary AudioSpecificConfig, then audio frames
